@@ -44,8 +44,13 @@ func (f *BinaryField) GenEncodeInto() (string, error) {
 
 func (f *BinaryField) GenReadFrom() (string, error) {
 	g := strErrBuf{}
+	// the announced length comes from the wire: never allocate more than the input can still supply
+	g.printlnf("if uint64(l) > uint64(reader.Length()-reader.Pos()) {")
+	g.printlnf("err = io.ErrUnexpectedEOF")
+	g.printlnf("} else {")
 	g.printlnf("value.%s = make([]byte, l)", f.name)
 	g.printlnf("_, err = io.ReadFull(reader, value.%s)", f.name)
+	g.printlnf("}")
 	return g.output()
 }
 
